@@ -57,9 +57,13 @@ ASSUMPTIONS = [
     "subscribe() from inside a handler: over a real transport SUBSCRIBED can only arrive after the fan-out has ended, so a "
     "handler can never become attached DURING a fan-out; checked: the SUBSCRIBE is written, the new handler does not see "
     "the event being fanned out nor any event before its SUBSCRIBED, and sees those after it",
-    "grey (no handler may be called, the fate of the session is not judged): EVENT after a refused UNSUBSCRIBE while no "
-    "handler is attached, whether the router then keeps the subscription (ERROR not_authorized) or not (no_such_subscription); "
-    "once a later SUBSCRIBED re-attaches a handler to the kept id, delivery is judged strictly again",
+    "UNSUBSCRIBE refused by the router which KEEPS the subscription (ERROR wamp.error.not_authorized) and goes on sending "
+    "EVENTs: the id was held and, for the router, still is - the only EVENT the statement makes a protocol violation is one "
+    "for a never-held id - so while no handler is attached these EVENTs must be dropped silently (no handler call, nothing "
+    "raised out of onMessage, transport and session unharmed); once a later SUBSCRIBED re-attaches a handler to the kept "
+    "id, delivery is judged as usual",
+    "grey (no handler may be called, the fate of the session is not judged): EVENT after ERROR wamp.error.no_such_subscription "
+    "to UNSUBSCRIBE (the router says it has no such subscription: like after UNSUBSCRIBED, a conforming router cannot send it)",
     "observed, not judged (outside the statement): the topic string that subscribe(obj) puts into SUBSCRIBE for a "
     "decorated '<name>' pattern",
     "not driven: payload encryption, acknowledged delivery, check_types, transport loss in the middle of a fan-out (C06)",
@@ -73,7 +77,7 @@ DECIDING = {
     "details_checked": 200, "liveness_probes": 100, "removed_midfanout_checked": 20, "coroutine_handler_invocations": 50,
     "falsy_object_invocations": 10, "same_class_instance_invocations": 200, "same_class_events_after_partial_unsubscribe": 50,
     "same_class_unsubscribe_positions": 3, "same_callable_invocations": 100, "subscribe_in_handler_on_wire": 50,
-    "unsubscribe_refused_subscription_kept": 30, "pattern_topic_details_checked": 200, "pattern_kinds": 3,
+    "unsubscribe_refused_subscription_kept": 30, "refused_unsubscribe_events_checked": 30, "pattern_topic_details_checked": 200, "pattern_kinds": 3,
     "exhaustive_cases": lambda tier: 100000 if tier == "thorough" else 0, "events_with_8_or_more_handlers": 50,
 }
 _DISTINCT_DECIDING = ("same_class_unsubscribe_positions", "pattern_kinds")
@@ -740,7 +744,7 @@ class Exec:
         if self.rsub.get(ti) and sid not in self.grey:
             klass = "racing" if (sid in self.inflight and not self.lists.get(sid)) else "held"
             if klass == "held" and sid in self.refused and not self.lists.get(sid):
-                klass = "refused"     # no handler left, the router would not let go: nothing to deliver; outcome for the session is grey
+                klass = "refused"     # no handler left but the router would not let go: the id is still held, drop silently
         elif sid is None or sid not in self.held:
             return self.do_event_never_held(ti, shape, dflag)
         elif sid in self.grey:
@@ -777,16 +781,18 @@ class Exec:
         raised = sum(1 for c in cur["calls"] if c["raised"])
         new_exc = self.onmsg_exc[ex0:]
         rctx = "raising-handler" if raised else "event"
-        if klass in ("held", "racing"):
-            ctx = "racing-event" if klass == "racing" else rctx
+        if klass in ("held", "racing", "refused"):
+            ctx = {"racing": "racing-event", "refused": "event-after-refused-unsubscribe"}.get(klass, rctx)
             if klass == "racing":
                 R.count("racing_events_checked")
+            if klass == "refused":
+                R.count("refused_unsubscribe_events_checked")
             if new_exc:
                 self.viol("C11/%s/exception-left-onMessage" % ctx,
                           "ApplicationSession.onMessage raised %r for a conforming EVENT" % (new_exc[0][1],),
                           event=ev["tag"])
             self.check_unsub_wire("event")
-            self.expect_alive("%s/%s" % (ctx, "not-dropped-silently" if klass == "racing" else "session-harmed"),
+            self.expect_alive("%s/%s" % (ctx, "not-dropped-silently" if klass in ("racing", "refused") else "session-harmed"),
                               "the session did not survive the EVENT (class %s, %d raising handler calls)" % (klass, raised))
             if raised:
                 R.count("raising_handler_events")
@@ -824,7 +830,7 @@ class Exec:
         R = self.R
         ev, L, calls, removed = cur["ev"], cur["L"], cur["calls"], cur["removed"]
         klass = cur["klass"]
-        strict = klass in ("held", "racing")
+        strict = klass in ("held", "racing", "refused")
         R.count("events_fanned_out")
         self.events_judged += 1
         R.seen("handlers_per_event", min(len(L), 9))
@@ -1623,7 +1629,7 @@ MANIFEST_ENTRY = {
              "attached to that subscription id at arrival; the UNSUBSCRIBE messages decoded from the wire are compared with "
              "'exactly once, when the last handler goes'; raising handlers, racing and never-held ids are judged on the "
              "session/transport state. Held = no mismatch on the executions listed in the evidence; not a proof."),
-    "note": ("conservative on what the statement leaves open: EVENT after UNSUBSCRIBED, after a refused UNSUBSCRIBE and router "
+    "note": ("conservative on what the statement leaves open: EVENT after UNSUBSCRIBED, after ERROR no_such_subscription to UNSUBSCRIBE and router "
              "revocation are observed, not judged; a sibling unsubscribed earlier in the same fan-out must not get that event "
              "any more; payload encryption and acknowledged delivery are not driven; "
              "trusts the harness codecs"),
